@@ -648,7 +648,7 @@ Section State.
         apply (AL a xi e ke Ia Nx). left. reflexivity. }
       set (a := length (nodes s1)) in *. rewrite E2 in W.
       assert (St2 : Step P s1 s2).
-      { eapply Step_push; eauto; [rewrite Ee2; apply incl_tl, incl_refl|exact Pn]. }
+      { eapply Step_push; eauto. rewrite Ee2; apply incl_tl, incl_refl. }
       assert (Ga : get_node s2 a = Some (mk_node NAlias ke (npkg ndn))) by (rewrite GN2, Nat.eqb_refl; reflexivity).
       (* is the import already supplied? *)
       destruct (G_sock s2 g2) as (snd0 & sat & Gs & Ks & Ps & Ss).
@@ -676,8 +676,8 @@ Section State.
           destruct (NP3 _ _ Gn2) as (nd3 & G3 & It3 & P3 & Is3). exists nd3. split; [exact G3|].
           split; [auto|]. split; [congruence|]. split; [congruence|].
           intros a' x e0 k0 I Nx. rewrite Ee3, Ee2 in I. destruct I as [Q|[Q|Q]]; [discriminate| |].
-          - injection Q as <- <-. destruct (get_full_spec _ _ _ _ _ Fe) as (_ & Nx' & _). rewrite Nat.sub_0_r in Nx'.
-            rewrite Nx' in Nx. injection Nx as <- <-. exact NIe.
+          - injection Q as Q1 Q2. subst x. destruct (get_full_spec _ _ _ _ _ Fe) as (_ & Nx' & _). rewrite Nat.sub_0_r in Nx'.
+            pose proof (eq_trans (eq_sym Nx) Nx') as EQ. injection EQ as -> ->. exact NIe.
           - intros Q'. apply (AL a' x e0 k0 Q Nx). right. exact Q'. }
         destruct (IH s3 (Some n) s' res g3 MO' ND' is3 W) as (St & _ & R).
         split; [eapply Step_trans; [exact g3|exact St03|exact St]|]. split; [discriminate|].
@@ -715,4 +715,594 @@ Section State.
                 injection Q as _ <-. right. exists e, m, t. split; [left; reflexivity|exact Fm].
              ++ right. exists e0, m0, t0. split; [right; exact Q|exact F0].
   Qed.
+
+  (** ** all plugs: [plug_loop] *)
+  Variable text : name -> str.
+  Let pu : puniverse := {| pu_graph := u; pu_name_text := text |}.
+  Let matches (exps : list item) := plug_matches text (u_sub u) imps exps.
+  Hypothesis imps_nodup : NoDup (map fst imps).
+
+  Lemma matches_Mok exps : NoDup (map fst exps) -> Forall (Mok exps) (matches exps).
+  Proof.
+    intros ND. apply Forall_forall. intros [e m] I. apply in_plug_matches in I.
+    destruct I as (ke & t & Ie & F & S). apply find_target_in in F. destruct F as (Im & _).
+    destruct (get_full_in _ _ _ ND Ie) as (xi & Fx & _). destruct (get_full_in _ _ _ imps_nodup Im) as (im & Fi & _).
+    exists xi, ke, im, t. auto.
+  Qed.
+
+  Lemma matches_fst_incl exps e m : In (e, m) (matches exps) -> In e (map fst exps).
+  Proof.
+    intros I. apply in_plug_matches in I. destruct I as (ke & _ & Ie & _). apply (in_map fst) in Ie. exact Ie.
+  Qed.
+
+  Lemma matches_nodup exps : NoDup (map fst exps) -> NoDup (map fst (matches exps)).
+  Proof.
+    unfold matches, plug_matches. induction exps as [|[e ke] r IH]; intros ND; cbn [flat_map map fst]; [constructor|].
+    cbn [map fst] in ND. inversion ND as [|? ? NI ND']; subst. rewrite map_app. cbn [fst snd].
+    assert (T : forall x, In x (map fst (flat_map (fun e0 : name * kid =>
+                  match find_target text imps (fst e0) with
+                  | Some (m, t) => if u_sub u (snd e0) t then [(fst e0, m)] else []
+                  | None => [] end) r)) -> In x (map fst r)).
+    { intros x Ix. apply in_map_iff in Ix. destruct Ix as ([e1 m1] & <- & I1). eapply matches_fst_incl. exact I1. }
+    destruct (find_target text imps e) as [[m t]|]; [|cbn; auto].
+    destruct (u_sub u ke t); [|cbn; auto]. cbn. constructor; [|auto]. intros Q. apply NI. apply T. exact Q.
+  Qed.
+
+  Definition PR (p : pkgid) (exps : list item) : Prop :=
+    exists pd, PD p = Some pd /\ u_inst_exports u (pd_inst pd) = Some exps.
+
+  (** the packages that contribute *)
+  Definition Contrib (plugs : list pkgid) (pls : list (list item)) (p : pkgid) : Prop :=
+    exists k exps, nth_error plugs k = Some p /\ nth_error pls k = Some exps /\ matches exps <> [].
+
+  Definition Dup (pls : list (list item)) : Prop :=
+    exists k1 k2 x1 x2 e1 e2 m, nth_error pls k1 = Some x1 /\ nth_error pls k2 = Some x2 /\
+      In (e1, m) (matches x1) /\ In (e2, m) (matches x2) /\ (k1, e1) <> (k2, e2).
+
+  Definition Taken (s : gstate) (pls : list (list item)) : Prop :=
+    exists k x e m im t a, nth_error pls k = Some x /\ In (e, m) (matches x) /\
+      get_full imps m 0 = Some (im, t) /\ In (arg_e a im) (edges s).
+
+  Lemma plug_loop_gen : forall plugs pls, Forall2 PR plugs pls -> Forall (fun exps => NoDup (map fst exps)) pls ->
+    forall s s' r, Good s -> plug_loop pu s sock imps plugs = (s', r) ->
+    Step (Contrib plugs pls) s s' /\
+    match r with
+    | None => Good s' /\
+        (forall k p exps e m, nth_error plugs k = Some p -> nth_error pls k = Some exps -> In (e, m) (matches exps) ->
+           exists pd, PD p = Some pd /\ Wired s' p pd exps e m) /\
+        (forall k exps e m im t a, nth_error pls k = Some exps -> In (e, m) (matches exps) ->
+           get_full imps m 0 = Some (im, t) -> ~ In (arg_e a im) (edges s)) /\
+        (forall k1 k2 x1 x2 e1 e2 m, nth_error pls k1 = Some x1 -> nth_error pls k2 = Some x2 ->
+           In (e1, m) (matches x1) -> In (e2, m) (matches x2) -> k1 = k2 /\ e1 = e2) /\
+        (forall a i, In (arg_e a i) (edges s') ->
+           In (arg_e a i) (edges s) \/
+           exists k exps e m t, nth_error pls k = Some exps /\ In (e, m) (matches exps) /\ get_full imps m 0 = Some (i, t))
+    | Some o => o = PGraphError ArgumentAlreadyPassed /\ (Dup pls \/ Taken s pls)
+    end.
+  Proof.
+    induction 1 as [|p exps plugs pls (pd & Pp & Xp) F2 IH]; intros NDs s s' r g W.
+    - cbn in W. injection W as <- <-. split; [apply Step_refl|]. split; [exact g|].
+      split; [intros [|?]; intros; discriminate|]. split; [intros [|?]; intros; discriminate|].
+      split; [intros [|?]; intros; discriminate|]. intros a i I. left. exact I.
+    - inversion NDs as [|? ? NDx NDs']; subst.
+      cbn [plug_loop] in W. unfold world_exports in W. cbn [pu pu_graph pu_name_text] in W.
+      rewrite (G_pd s g), Pp, Xp in W. fold (matches exps) in W.
+      destruct (wire u s sock p None (matches exps)) as [s1 r1] eqn:W1.
+      assert (Shift : forall q, Contrib plugs pls q -> Contrib (p :: plugs) (exps :: pls) q).
+      { intros q (k & x & A & B & C). exists (S k), x. auto. }
+      destruct (list_eq_dec (fun a b : name * name =>
+                  match N.eq_dec (fst a) (fst b), N.eq_dec (snd a) (snd b) with
+                  | left A, left B => left (eq_trans (eq_trans (surjective_pairing a) (f_equal2 pair A B)) (eq_sym (surjective_pairing b)))
+                  | right A, _ => right (fun E => A (f_equal fst E))
+                  | _, right B => right (fun E => B (f_equal snd E))
+                  end) (matches exps) []) as [Emp|NEmp].
+      + (* nothing to wire: the plug is not even instantiated *)
+        rewrite Emp in W1. cbn in W1. injection W1 as <- <-.
+        destruct (IH NDs' s s' r g W) as (St & R).
+        split; [eapply Step_weaken; [exact Shift|exact St]|].
+        destruct r as [o|].
+        * destruct R as (-> & [D|T]); (split; [reflexivity|]).
+          -- left. destruct D as (k1 & k2 & x1 & x2 & e1 & e2 & m & A & B & C & D & E).
+             exists (S k1), (S k2), x1, x2, e1, e2, m. repeat split; auto. intros Q. apply E. congruence.
+          -- right. destruct T as (k & x & e & m & im & t & a & A & B & C & D). exists (S k), x, e, m, im, t, a. auto.
+        * destruct R as (g' & L1 & L2 & L3 & L4). split; [exact g'|]. split; [|split; [|split]].
+          -- intros [|k] q x e m A B C; cbn in A, B.
+             ++ injection B as <-. rewrite Emp in C. destruct C.
+             ++ eapply L1; eauto.
+          -- intros [|k] x e m im t a B C; cbn in B.
+             ++ injection B as <-. rewrite Emp in C. destruct C.
+             ++ eapply L2; eauto.
+          -- intros [|k1] [|k2] x1 x2 e1 e2 m A B C D; cbn in A, B;
+               try (injection A as <-; rewrite Emp in C; destruct C); try (injection B as <-; rewrite Emp in D; destruct D).
+             destruct (L3 k1 k2 x1 x2 e1 e2 m A B C D). auto.
+          -- intros a i I. destruct (L4 a i I) as [Q|(k & x & e & m & t & A & B & C)]; [left; exact Q|].
+             right. exists (S k), x, e, m, t. auto.
+      + assert (Cp : Contrib (p :: plugs) (exps :: pls) p) by (exists 0, exps; auto).
+        destruct (wire_gen (Contrib (p :: plugs) (exps :: pls)) p pd exps Pp Xp Cp (matches exps) s None s1 r1 g
+                    (matches_Mok exps NDx) (matches_nodup exps NDx) I W1) as (St1 & _ & R1).
+        destruct r1 as [o|].
+        * injection W as <- <-. split; [exact St1|]. destruct R1 as (-> & e & m & im & t & Ie & Fm & D).
+          split; [reflexivity|]. destruct D as [(a & Ia)|(e' & NE & I')].
+          -- right. exists 0, exps, e, m, im, t, a. auto.
+          -- left. exists 0, 0, exps, exps, e', e, m. repeat split; auto. intros Q. apply NE. congruence.
+        * destruct R1 as (g1 & WD & FR & UQ & AR).
+          destruct (IH NDs' s1 s' r g1 W) as (St & R).
+          split; [eapply Step_trans; [exact g1|exact St1|eapply Step_weaken; [exact Shift|exact St]]|].
+          destruct St as (NPs & _ & _ & Inc & _). destruct St1 as (_ & _ & _ & Inc1 & _).
+          destruct r as [o|].
+          -- destruct R as (-> & [D|T]); (split; [reflexivity|]).
+             ++ left. destruct D as (k1 & k2 & x1 & x2 & e1 & e2 & m & A & B & C & D & E).
+                exists (S k1), (S k2), x1, x2, e1, e2, m. repeat split; auto. intros Q. apply E. congruence.
+             ++ destruct T as (k & x & e & m & im & t & a & A & B & C & D).
+                destruct (AR a im D) as [Q|(e0 & m0 & t0 & Q & F0)].
+                ** right. exists (S k), x, e, m, im, t, a. auto.
+                ** left. assert (m0 = m) as -> by (eapply get_full_inj; eauto).
+                   exists 0, (S k), exps, x, e0, e, m. repeat split; auto. discriminate.
+          -- destruct R as (g' & L1 & L2 & L3 & L4). split; [exact g'|]. split; [|split; [|split]].
+             ++ intros [|k] q x e m A B C; cbn in A, B.
+                ** injection A as <-. injection B as <-. exists pd. split; [exact Pp|].
+                   eapply Wired_mono; [exact NPs|exact Inc|]. apply WD. exact C.
+                ** eapply L1; eauto.
+             ++ intros [|k] x e m im t a B C Fm; cbn in B.
+                ** injection B as <-. eapply FR; eauto.
+                ** intros Q. apply (L2 k x e m im t a B C Fm). apply Inc1. exact Q.
+             ++ assert (Cross : forall k2 x2 e1 e2 m, nth_error pls k2 = Some x2 -> In (e1, m) (matches exps) ->
+                                  In (e2, m) (matches x2) -> False).
+                { intros k2 x2 e1 e2 m B C D. destruct (WD e1 m C) as (im & t & a & n & xi & ke & nd & Fm & _ & Ia & _).
+                  apply (L2 k2 x2 e2 m im t a B D Fm Ia). }
+                intros [|k1] [|k2] x1 x2 e1 e2 m A B C D; cbn in A, B.
+                ** injection A as <-. injection B as <-. split; [reflexivity|]. eapply UQ; eauto.
+                ** injection A as <-. exfalso. eapply Cross; eauto.
+                ** injection B as <-. exfalso. eapply Cross; eauto.
+                ** destruct (L3 k1 k2 x1 x2 e1 e2 m A B C D). auto.
+             ++ intros a i I. destruct (L4 a i I) as [Q|(k & x & e & m & t & A & B & C)].
+                ** destruct (AR a i Q) as [Q'|(e & m & t & Q' & F0)]; [left; exact Q'|].
+                   right. exists 0, exps, e, m, t. auto.
+                ** right. exists (S k), x, e, m, t. auto.
+  Qed.
+
+  (** ** re-exporting the socket *)
+  Lemma alias_ok' (P : pkgid -> Prop) s n nd ex e xi k p : Good s ->
+    get_node s n = Some nd -> is_inst nd -> u_inst_exports u (nitem nd) = Some ex -> get_full ex e 0 = Some (xi, k) ->
+    npkg nd = Some p -> P p ->
+    exists s2 a an, alias u s n e = (s2, ONode a) /\ Good s2 /\ Step P s s2 /\ In (alias_e n a xi) (edges s2) /\
+                 (forall a0 i, In (arg_e a0 i) (edges s2) <-> In (arg_e a0 i) (edges s)) /\ get_node s2 a = Some an.
+  Proof.
+    intros g G I X F Pn Pp.
+    destruct (alias_ok s n nd ex e xi k g G I X F) as [(a & E & Ia)|(s2 & E & g2 & Ee & Ex & El & GN & _)].
+    - destruct (G_bound s g _ Ia) as (_ & La). cbn in La. destruct (G_live s g a La) as (an & Ga).
+      exists s, a, an. split; [exact E|]. split; [exact g|]. split; [apply Step_refl|]. split; [exact Ia|]. split; [tauto|exact Ga].
+    - exists s2, (length (nodes s)), (mk_node NAlias k (npkg nd)). split; [exact E|]. split; [exact g2|].
+      split; [eapply Step_push; eauto; rewrite Ee; apply incl_tl, incl_refl|].
+      split; [rewrite Ee; left; reflexivity|]. split.
+      + intros a0 i. rewrite Ee. split; [intros [Q|Q]; [discriminate|exact Q]|intros Q; right; exact Q].
+      + rewrite GN, Nat.eqb_refl. reflexivity.
+  Qed.
+
+  Lemma alist_get_app_one {B} (l : list (name * B)) x a y :
+    alist_get N.eqb (l ++ [(x, a)]) y =
+    match alist_get N.eqb l y with Some v => Some v | None => if N.eqb x y then Some a else None end.
+  Proof. induction l as [|[k v] l IH]; cbn; [reflexivity|]. destruct (N.eqb k y); auto. Qed.
+
+  Variable sx : list item.
+  Hypothesis sx_exports : u_inst_exports u (pd_inst sd) = Some sx.
+  Hypothesis sx_nodup : NoDup (map fst sx).
+
+  Lemma reexport_gen : forall names s s' r, Good s ->
+    (exists nd, get_node s sock = Some nd /\ nitem nd = pd_inst sd) ->
+    NoDup names ->
+    (forall x, In x names -> In x (map fst sx) /\ u_export_name_ok u x = true /\ alist_get N.eqb (exports s) x = None) ->
+    reexport u s sock names = (s', r) ->
+    r = None /\ Good s' /\ NP s s' /\ incl (edges s) (edges s') /\
+    (forall a i, In (arg_e a i) (edges s') <-> In (arg_e a i) (edges s)) /\
+    (forall n nd', get_node s' n = Some nd' -> length (nodes s) <= n -> npkg nd' = Some sp) /\
+    (forall x, In x names -> exists a xi k, alist_get N.eqb (exports s') x = Some a /\
+                                            In (alias_e sock a xi) (edges s') /\ nth_error sx xi = Some (x, k)).
+  Proof.
+    induction names as [|x names IH]; intros s s' r g Hs ND Hn W.
+    - cbn in W. injection W as <- <-. split; [reflexivity|]. split; [exact g|]. split; [apply NP_refl|].
+      split; [apply incl_refl|]. split; [tauto|]. split; [|intros x []].
+      intros n nd G L. apply get_node_lt in G. lia.
+    - inversion ND as [|? ? NIx ND']; subst. destruct (Hn x (or_introl eq_refl)) as (Ix & Okx & Ax).
+      destruct (G_sock s g) as (nd & sat & Gs & Ks & Ps & _). destruct Hs as (nd0 & Gs0 & It0).
+      rewrite Gs in Gs0. injection Gs0 as <-.
+      apply in_map_iff in Ix. destruct Ix as ([x0 k] & Ex0 & Ix). cbn in Ex0. subst x0.
+      destruct (get_full_in _ _ _ sx_nodup Ix) as (xi & Fx & Nx).
+      assert (Xs : u_inst_exports u (nitem nd) = Some sx) by (rewrite It0; exact sx_exports).
+      destruct (alias_ok' (fun p => p = sp) s sock nd sx x xi k sp g Gs (ex_intro _ sat Ks) Xs Fx Ps eq_refl)
+        as (s2 & a & an & E2 & g2 & St2 & Ia & Args2 & Ga).
+      cbn [reexport] in W. rewrite E2 in W.
+      destruct St2 as (NP2 & L2 & X2 & Inc2 & New2).
+      assert (Ax2 : alist_get N.eqb (exports s2) x = None) by (rewrite X2; exact Ax).
+      destruct (export_ok s2 a an x g2 Ga Ax2 Okx) as (s3 & E3 & g3 & Ee3 & Ex3 & El3 & NP3 & GN3).
+      rewrite E3 in W.
+      assert (Hs3 : exists nd3, get_node s3 sock = Some nd3 /\ nitem nd3 = pd_inst sd).
+      { destruct (NP2 _ _ Gs) as (n2 & G2 & I2 & _). destruct (NP3 _ _ G2) as (n3 & G3 & I3 & _).
+        exists n3. split; [exact G3|congruence]. }
+      assert (Hn3 : forall y, In y names -> In y (map fst sx) /\ u_export_name_ok u y = true /\ alist_get N.eqb (exports s3) y = None).
+      { intros y Iy. destruct (Hn y (or_intror Iy)) as (A & B & C). split; [exact A|]. split; [exact B|].
+        rewrite Ex3, alist_get_app_one, X2, C. destruct (N.eqb_spec x y) as [->|NE]; [contradiction|reflexivity]. }
+      destruct (IH s3 s' r g3 Hs3 ND' Hn3 W) as (-> & g' & NP' & Inc' & Args' & New' & Ex').
+      split; [reflexivity|]. split; [exact g'|].
+      split; [eapply NP_trans; [exact NP2|eapply NP_trans; [exact NP3|exact NP']]|].
+      split; [eapply incl_tran; [exact Inc2|]; rewrite <- Ee3; exact Inc'|].
+      split; [intros a0 i; rewrite Args', Ee3; apply Args2|].
+      split.
+      + intros n nd' G L. destruct (le_lt_dec (length (nodes s3)) n) as [Ge|Lt]; [apply (New' n nd' G Ge)|].
+        rewrite El3 in Lt. destruct (G_live s2 g2 n Lt) as (n2 & G2).
+        destruct (NP3 _ _ G2) as (n3 & G3 & _ & P3 & _). destruct (NP' _ _ G3) as (n4 & G4 & _ & P4 & _).
+        rewrite G in G4. injection G4 as <-. rewrite P4, P3.
+        destruct (New2 n n2 G2 L) as (q & Q1 & Q2). congruence.
+      + intros y [<-|Iy]; [|apply Ex'; exact Iy].
+        exists a, xi, k. split; [|split; [apply Inc'; rewrite Ee3; exact Ia|exact Nx]].
+        (* the export entry of [x] survives the later exports *)
+        assert (Keep : forall names0 t t' r0, reexport u t sock names0 = (t', r0) -> r0 = None ->
+                        alist_get N.eqb (exports t) x = Some a -> alist_get N.eqb (exports t') x = Some a).
+        { clear. induction names0 as [|y ns IHn]; intros t t' r0 W R A; cbn in W.
+          - injection W as <- _. exact A.
+          - destruct (alias u t sock y) as [t1 [| a1 | | |]] eqn:EA; try (injection W as _ <-; discriminate).
+            assert (exports t1 = exports t) as X1.
+            { unfold alias in EA. destruct (get_node t sock); [|injection EA as <- _; reflexivity].
+              destruct (u_inst_exports u (nitem n)); [|injection EA as <- _; reflexivity].
+              destruct (get_full l y 0) as [[? ?]|]; [|injection EA as <- _; reflexivity].
+              destruct (find _ _); [injection EA as <- _; reflexivity|].
+              destruct (add_node t _) as [t2 idx] eqn:AN. injection EA as <- _. cbn.
+              unfold add_node in AN. destruct (free_nodes t); injection AN as <- _; reflexivity. }
+            destruct (export_ u t1 a1 y) as [t2 [| | | |]] eqn:EX; try (injection W as _ <-; discriminate).
+            apply (IHn t2 t' r0 W R). unfold export_ in EX. rewrite X1 in EX.
+            destruct (alist_get N.eqb (exports t) y) eqn:Ay; [injection EX as <-; discriminate|].
+            destruct (negb (u_export_name_ok u y)); [injection EX as <-; discriminate|].
+            destruct (update_node t1 a1 _) as [t3|] eqn:UN; [|injection EX as <-; discriminate].
+            injection EX as <-. cbn [with_maps exports]. rewrite alist_get_app_one.
+            unfold update_node in UN. destruct (get_node t1 a1); [|discriminate]. injection UN as <-. cbn [set_node exports].
+            rewrite X1, A. reflexivity. }
+        apply (Keep names s3 s' None W eq_refl). rewrite Ex3, alist_get_app_one, X2, Ax, N.eqb_refl. reflexivity.
+  Qed.
+
+  (** ** what the queries say in a good state *)
+  Lemma get_args_in s m a : Good s ->
+    (In (m, a) (get_args u s sock) <-> exists im t, In (arg_e a im) (edges s) /\ nth_error imps im = Some (m, t)).
+  Proof.
+    intros g. destruct (G_sock s g) as (nd & sat & G & K & P & _).
+    unfold get_args. rewrite G, K, (inst_imports_sock s nd g P). rewrite in_flat_map. split.
+    - intros (e & Ie & Q). destruct (incoming_sock_args s g e Ie) as (a0 & i & ->). cbn in Q.
+      destruct (nth_error imps i) as [[nm t]|] eqn:N; [|destruct Q]. destruct Q as [Q|[]]. injection Q as -> ->.
+      apply in_incoming in Ie. exists i, t. tauto.
+    - intros (im & t & I & N). exists (arg_e a im). split; [apply in_incoming; auto|]. cbn. rewrite N. left. reflexivity.
+  Qed.
+
+  Lemma alias_source_of s n a xi nd ex nm k : Good s -> In (alias_e n a xi) (edges s) ->
+    get_node s n = Some nd -> u_inst_exports u (nitem nd) = Some ex -> nth_error ex xi = Some (nm, k) ->
+    get_alias_source u s a = Some (n, nm).
+  Proof.
+    intros g I G X N. unfold get_alias_source.
+    destruct (find (fun e => match ek e with EAlias _ => true | _ => false end) (incoming s a)) as [e0|] eqn:F.
+    - apply find_some in F. destruct F as (I0 & K0). apply in_incoming in I0. destruct I0 as (I0 & T0).
+      destruct (G_shape s g e0 I0) as [(a0 & i & ->)|(n' & a' & xi' & -> & _)]; [discriminate|].
+      cbn in T0. subst a'. destruct (G_alias_uniq s g _ _ _ _ _ I0 I) as (-> & ->). cbn. rewrite G, X, N. reflexivity.
+    - exfalso. assert (Q := find_none _ _ F (alias_e n a xi)). cbn in Q.
+      assert (true = false); [|discriminate]. apply Q. apply in_incoming. auto.
+  Qed.
+
+  Lemma in_combine_seq {A} (l : list A) a n x : nth_error l n = Some x -> In (a + n, x) (combine (seq a (length l)) l).
+  Proof.
+    revert a n. induction l as [|y l IH]; intros a [|n] N; try discriminate; cbn in *.
+    - injection N as ->. left. f_equal. lia.
+    - right. replace (a + S n) with (S a + n) by lia. apply IH. exact N.
+  Qed.
+
+  Lemma in_node_ids s n nd : get_node s n = Some nd -> In n (node_ids s).
+  Proof.
+    unfold get_node, node_ids, nodes_where. intros G. destruct (nth_error (nodes s) n) as [[x|]|] eqn:N; try discriminate.
+    apply in_flat_map. exists (n, Some x). split; [apply (in_combine_seq (nodes s) 0 n); exact N|]. cbn. left. reflexivity.
+  Qed.
+
+  Lemma list_imports_in s nd sat i m t : Good s ->
+    get_node s sock = Some nd -> nk nd = NInst sat -> npkg nd = Some sp ->
+    nth_error imps i = Some (m, t) -> ~ In i sat -> In (m, t, None) (list_imports u s).
+  Proof.
+    intros g G K P N NI. unfold list_imports. apply in_or_app. left. apply in_flat_map.
+    exists sock. split; [eapply in_node_ids; eauto|]. rewrite G, K, (inst_imports_sock s nd g P).
+    apply in_flat_map. exists (i, (m, t)). split; [apply (in_combine_seq imps 0 i); exact N|]. cbn [fst snd].
+    destruct (existsb (Nat.eqb i) sat) eqn:E; [|left; reflexivity].
+    apply existsb_exists in E. destruct E as (j & Ij & Ej). apply Nat.eqb_eq in Ej. subst j. contradiction.
+  Qed.
 End State.
+
+Lemma nth_error_fst_inj {B} (l : list (name * B)) i j k v v' :
+  NoDup (map fst l) -> nth_error l i = Some (k, v) -> nth_error l j = Some (k, v') -> i = j.
+Proof.
+  intros ND A B0. rewrite NoDup_nth_error in ND. apply ND.
+  - rewrite map_length. apply nth_error_Some. congruence.
+  - rewrite !nth_error_map, A, B0. reflexivity.
+Qed.
+
+Lemma get_full_of_nth {B} (l : list (name * B)) i k v :
+  NoDup (map fst l) -> nth_error l i = Some (k, v) -> get_full l k 0 = Some (i, v).
+Proof.
+  intros ND N. destruct (get_full_in l k v ND (nth_error_In _ _ N)) as (j & F & Nj).
+  rewrite (nth_error_fst_inj l i j k v v ND N Nj). exact F.
+Qed.
+
+(** * Part 3: the whole of [plug] on a blank graph *)
+Lemma Forall2_nth_right {A B} (R : A -> B -> Prop) l l' k x :
+  Forall2 R l l' -> nth_error l' k = Some x -> exists p, nth_error l k = Some p /\ R p x.
+Proof.
+  intros F. revert k. induction F as [|a b l l' Rab _ IH]; intros [|k] N; try discriminate; cbn in *.
+  - injection N as <-. eauto.
+  - apply IH. exact N.
+Qed.
+
+Definition plug_result (pu : puniverse) (plugs : list pkgid) (socket : pkgid) (imps sx : list item)
+           (pls : list (list item)) (r : gstate * plug_outcome) : Prop :=
+  let u : universe := pu_graph pu in
+  let sup := suppliers (pu_name_text pu) (u_sub u) pls in
+  let sock := 0 in
+  let (s', out) := r in
+  (out = PGraphError ArgumentAlreadyPassed /\ exists i, In i imps /\ 2 <= length (sup i)) \/
+  (out = PNoPlugHappened /\ forall i, In i imps -> sup i = []) \/
+  (out = POk /\ (forall i, In i imps -> length (sup i) <= 1) /\ (exists i, In i imps /\ sup i <> []) /\
+   (forall m t, In (m, t) imps ->
+      match sup (m, t) with
+      | [] => stays_import u s' sock m t
+      | [(k, e)] => exists p, nth_error plugs k = Some p /\ supplied_by u s' sock m p e
+      | _ => False
+      end) /\
+   (forall x k, In (x, k) sx -> reexported u s' sock x) /\
+   (forall p, p <> socket ->
+      (forall k, nth_error plugs k = Some p -> forall i, In i imps -> forall e, ~ In (k, e) (sup i)) ->
+      not_instantiated s' p)).
+
+Theorem plug_master pu s plugs socket imps sx pls :
+  blank s -> resolved pu s plugs socket imps sx pls -> wf_case pu imps sx pls ->
+  tracks_distinct (pu_name_text pu) (map fst imps) ->
+  Forall (fun exps => tracks_distinct (pu_name_text pu) (map fst exps)) pls ->
+  plug_result pu plugs socket imps sx pls (plug pu s plugs socket).
+Proof.
+  destruct pu as [u text]. cbn [pu_graph pu_name_text]. intros Hblank Hres Hwf H1 H2.
+  unfold plug_result. unfold resolved, wf_case in *. cbn [pu_graph pu_name_text] in *.
+  set (sup := suppliers text (u_sub u) pls). pose (sock := 0).
+    destruct Hblank as (Bn & Bf & Be & Bx).
+    destruct Hres as ((sd & Psd & Ei & Xsd) & F2).
+    destruct Hwf as (NDi & NDx & NDp & OKx).
+    set (PD := pkg_desc u s).
+    assert (PDsp : PD socket = Some sd) by exact Psd.
+    (* the socket instantiation *)
+    unfold plug. cbn [pu_graph pu_name_text]. rewrite Psd. unfold instantiate. rewrite Psd. unfold add_node. rewrite Bf, Bn. cbn [length app].
+    set (nd0 := mk_node (NInst []) (pd_inst sd) (Some socket)).
+    set (s0 := {| nodes := [Some nd0]; free_nodes := []; edges := edges s; imports := imports s; exports := exports s;
+                  defined := defined s; pkgs := pkgs s; free_pkgs := free_pkgs s |}).
+    assert (g0 : Good u sock socket sd PD s0).
+    { constructor.
+      - reflexivity.
+      - intros id. apply pkg_desc_same. reflexivity.
+      - intros [|n] L; [|cbn in L; lia]. exists nd0. reflexivity.
+      - cbn [s0 edges]. rewrite Be. intros e [].
+      - cbn [s0 edges]. rewrite Be. intros e [].
+      - exists nd0, []. cbn [s0 edges]. rewrite Be. repeat split; auto; [intros []|intros (a & [])].
+      - cbn [s0 edges]. rewrite Be. intros a i [].
+      - cbn [s0 edges]. rewrite Be. intros a a' i [].
+      - cbn [s0 edges]. rewrite Be. intros n n' a xi xi' [].
+      - cbn [s0 edges]. rewrite Be. intros n a xi []. }
+    assert (E0 : edges s0 = []) by exact Be.
+    assert (PRs : Forall2 (PR u PD) plugs pls).
+    { clear - F2. induction F2 as [|p x ps xs (pd & A & B) _ IH]; constructor; [exists pd; auto|exact IH]. }
+    subst imps. set (imps := pd_imports sd) in *.
+    destruct (plug_loop {| pu_graph := u; pu_name_text := text |} s0 0 imps plugs) as [s1 r1] eqn:LP.
+    destruct (plug_loop_gen u sock socket sd PD PDsp text NDi plugs pls PRs NDp s0 s1 r1 g0 LP) as (St1 & R1).
+    set (matches := fun exps => plug_matches text (u_sub u) imps exps) in *.
+    (* offers and pairs coincide *)
+    assert (M2O : forall k exps e m, nth_error pls k = Some exps -> In (e, m) (matches exps) ->
+                    exists t, In (m, t) imps /\ In (k, e) (sup (m, t))).
+    { intros k exps e m N I. rewrite Forall_forall in H2. pose proof (H2 exps (nth_error_In _ _ N)) as TD.
+      destruct (match_is_offer text (u_sub u) imps exps e m TD I) as (t & Im & O). exists t. split; [exact Im|].
+      apply in_suppliers. eauto. }
+    assert (O2M : forall k e m t, In (m, t) imps -> In (k, e) (sup (m, t)) ->
+                    exists exps, nth_error pls k = Some exps /\ In (e, m) (matches exps)).
+    { intros k e m t Im I. apply in_suppliers in I. destruct I as (exps & N & O). exists exps. split; [exact N|].
+      eapply offer_is_match; eauto. }
+    destruct r1 as [o|].
+    - (* the loop failed *)
+      destruct R1 as (-> & [D|T]).
+      + left. split; [reflexivity|]. destruct D as (k1 & k2 & x1 & x2 & e1 & e2 & m & N1 & N2 & I1 & I2 & NE).
+        destruct (M2O _ _ _ _ N1 I1) as (t & Im & S1). destruct (M2O _ _ _ _ N2 I2) as (t' & Im' & S2).
+        rewrite (nodup_fst_inj _ _ _ _ NDi Im' Im) in S2. exists (m, t). split; [exact Im|].
+        destruct (le_lt_dec 2 (length (sup (m, t)))) as [G|L]; [exact G|]. exfalso. apply NE.
+        destruct (sup (m, t)) as [|a [|b r]]; [destruct S1| |cbn in L; lia].
+        destruct S1 as [<-|[]]. destruct S2 as [Q|[]]. exact Q.
+      + exfalso. destruct T as (k & x & e & m & im & t & a & _ & _ & _ & I). rewrite E0 in I. destruct I.
+    - destruct R1 as (g1 & L1 & L2 & L3 & L4).
+      assert (ARGS : forall a i, In (arg_e sock a i) (edges s1) ->
+                       exists k exps e m t, nth_error pls k = Some exps /\ In (e, m) (matches exps) /\ get_full imps m 0 = Some (i, t)).
+      { intros a i I. destruct (L4 a i I) as [Q|Q]; [rewrite E0 in Q; destruct Q|exact Q]. }
+      assert (LE1 : forall i, In i imps -> length (sup i) <= 1).
+      { intros [m t] Im. apply suppliers_from_one. intros k1 k2 e1 e2 S1 S2.
+        destruct (O2M _ _ _ _ Im S1) as (x1 & N1 & I1). destruct (O2M _ _ _ _ Im S2) as (x2 & N2 & I2).
+        destruct (L3 _ _ _ _ _ _ _ N1 N2 I1 I2). auto. }
+      destruct (get_args u s1 0) as [|[m0 a0] rest] eqn:GA.
+      + (* no argument: nothing matched *)
+        right. left. split; [reflexivity|]. intros [m t] Im.
+        destruct (sup (m, t)) as [|[k e] r] eqn:Sm; [reflexivity|]. exfalso.
+        assert (Sk : In (k, e) (sup (m, t))) by (rewrite Sm; left; reflexivity).
+        destruct (O2M _ _ _ _ Im Sk) as (exps & N & I).
+        destruct (Forall2_nth_right _ _ _ _ _ PRs N) as (p & Np & _).
+        destruct (L1 _ _ _ _ _ Np N I) as (pd & _ & (im & t' & a & n & xi & ke & nd & Fm & _ & Ia & _)).
+        assert (Q : In (m, a) (get_args u s1 0)).
+        { apply (get_args_in u sock socket sd PD PDsp text s1 m a g1). exists im, t'. split; [exact Ia|].
+          destruct (get_full_spec _ _ _ _ _ Fm) as (_ & Q & _). rewrite Nat.sub_0_r in Q. exact Q. }
+        rewrite GA in Q. destruct Q.
+      + (* something was plugged: re-export *)
+        rewrite Xsd.
+        destruct (reexport u s1 0 (map fst sx)) as [s2 r2] eqn:RX.
+        assert (Hs1 : exists nd, get_node s1 sock = Some nd /\ nitem nd = pd_inst sd).
+        { destruct St1 as (NP1 & _). destruct (NP1 sock nd0 eq_refl) as (nd & G & It & _). exists nd. auto. }
+        assert (X1 : exports s1 = []) by (destruct St1 as (_ & _ & X & _); rewrite X; exact Bx).
+        assert (Hn : forall x, In x (map fst sx) -> In x (map fst sx) /\ u_export_name_ok u x = true /\
+                               alist_get N.eqb (exports s1) x = None).
+        { intros x Ix. split; [exact Ix|]. split; [|rewrite X1; reflexivity].
+          apply in_map_iff in Ix. destruct Ix as (y & <- & Iy). rewrite Forall_forall in OKx. apply OKx. exact Iy. }
+        destruct (reexport_gen u sock socket sd PD text sx Xsd NDx (map fst sx) s1 s2 r2 g1 Hs1 NDx Hn RX)
+          as (-> & g2 & NP2 & Inc2 & Args2 & New2 & Ex2).
+        right. right. split; [reflexivity|]. split; [exact LE1|].
+        assert (I0 : In (m0, a0) (get_args u s1 0)) by (rewrite GA; left; reflexivity).
+        apply (get_args_in u sock socket sd PD PDsp text s1 m0 a0 g1) in I0. destruct I0 as (im0 & t0 & Ia0 & N0).
+        split.
+        { destruct (ARGS _ _ Ia0) as (k & exps & e & m & t & N & I & Fm).
+          destruct (M2O _ _ _ _ N I) as (t' & Im & S'). exists (m, t'). split; [exact Im|]. intros Q. rewrite Q in S'. destruct S'. }
+        destruct (G_sock _ _ _ _ _ _ g2) as (snd2 & sat2 & Gs2 & Ks2 & Ps2 & Ss2).
+        split; [|split].
+        * (* every import: supplied by its unique supplier, or still an import *)
+          intros m t Im. destruct (In_nth_error _ _ Im) as (im & Nm).
+          pose proof (get_full_of_nth imps im m t NDi Nm) as Fm.
+          assert (ONLY : forall a' , In (m, a') (get_args u s2 0) -> In (arg_e sock a' im) (edges s2)).
+          { intros a' Q. apply (get_args_in u sock socket sd PD PDsp text s2 m a' g2) in Q.
+            destruct Q as (im' & t' & Ia' & N'). rewrite (nth_error_fst_inj imps im im' m t t' NDi Nm N'). exact Ia'. }
+          pose proof (LE1 _ Im) as Le. destruct (sup (m, t)) as [|[k e] [|b r]] eqn:Sm; [| |cbn in Le; lia].
+          -- assert (NOARG : forall a, ~ In (arg_e sock a im) (edges s2)).
+             { intros a Ia. apply Args2 in Ia. destruct (ARGS _ _ Ia) as (k & exps & e & m' & t' & N & I & Fm').
+               assert (m' = m) as -> by (eapply get_full_inj; eauto).
+               destruct (M2O _ _ _ _ N I) as (t'' & Im'' & S'').
+               rewrite (nodup_fst_inj _ _ _ _ NDi Im'' Im), Sm in S''. destruct S''. }
+             split; [intros a Q; apply (NOARG a), ONLY, Q|].
+             apply (list_imports_in u sock socket sd PD PDsp text sx s2 snd2 sat2 im m t g2 Gs2 Ks2 Ps2 Nm).
+             intros Q. apply Ss2 in Q. destruct Q as (a & Ia). exact (NOARG a Ia).
+          -- assert (Sk : In (k, e) (sup (m, t))) by (rewrite Sm; left; reflexivity).
+             destruct (O2M _ _ _ _ Im Sk) as (exps & N & I).
+             destruct (Forall2_nth_right _ _ _ _ _ PRs N) as (p & Np & (pd0 & Ppd0 & Xpd0)).
+             exists p. split; [exact Np|].
+             destruct (L1 _ _ _ _ _ Np N I) as (pd & Ppd & W1).
+             apply (Wired_mono sock sd s1 s2 p pd exps e m NP2 Inc2) in W1.
+             destruct W1 as (im' & t' & a & n & xi & ke & nd & Fm' & Fe & Ia & Il & Gn & (sat & Kn) & Pn & Itn).
+             pose proof (eq_trans (eq_sym Fm) Fm') as EQ. injection EQ as <- <-.
+             exists a, n, nd, sat. split; [|split; [|split; [|auto]]].
+             ++ apply (get_args_in u sock socket sd PD PDsp text s2 m a g2). eauto.
+             ++ intros a' Q. apply ONLY in Q. apply (G_arg_uniq _ _ _ _ _ _ g2 a' a im Q Ia).
+             ++ destruct (get_full_spec _ _ _ _ _ Fe) as (_ & Nx & _). rewrite Nat.sub_0_r in Nx.
+                assert (Xp : u_inst_exports u (nitem nd) = Some exps).
+                { rewrite Itn. rewrite Ppd0 in Ppd. injection Ppd as <-. exact Xpd0. }
+                eapply (alias_source_of u sock socket sd PD s2 n a xi nd exps e ke g2 Il Gn Xp Nx).
+        * (* the socket's exports *)
+          intros x k Ix. destruct (Ex2 x (in_map fst _ _ Ix)) as (a & xi & k' & Ax & Ia & Nx).
+          exists a. split; [exact Ax|].
+          destruct Hs1 as (n1 & G1 & It1). destruct (NP2 _ _ G1) as (n2 & G2 & It2 & _).
+          assert (Xs : u_inst_exports u (nitem n2) = Some sx) by (rewrite It2, It1; exact Xsd).
+          apply (alias_source_of u sock socket sd PD s2 sock a xi n2 sx x k' g2 Ia G2 Xs Nx).
+        * (* idle plugs *)
+          intros p NEp Idle n nd Gn Q.
+          destruct (le_lt_dec (length (nodes s1)) n) as [Ge|Lt].
+          -- rewrite (New2 n nd Gn Ge) in Q. congruence.
+          -- destruct (G_live _ _ _ _ _ _ g1 n Lt) as (n1 & G1). destruct (NP2 _ _ G1) as (n2 & G2 & _ & P2 & _).
+             rewrite Gn in G2. injection G2 as <-. rewrite P2 in Q.
+             destruct n as [|n].
+             ++ destruct Hs1 as (x & Gx & _). destruct (G_sock _ _ _ _ _ _ g1) as (y & _ & Gy & _ & Py & _).
+                fold sock in G1. rewrite Gy in G1. injection G1 as <-. congruence.
+             ++ destruct St1 as (_ & _ & _ & _ & New1). destruct (New1 (S n) n1 G1) as (q & Pq & (k & exps & Nk & Nx & NE)); [cbn; lia|].
+                pose proof (eq_trans (eq_sym Pq) Q) as EQ. injection EQ as ->.
+                destruct (matches exps) as [|[e m] r] eqn:Me; [exact (NE Me)|].
+                assert (I : In (e, m) (matches exps)) by (rewrite Me; left; reflexivity).
+                destruct (M2O _ _ _ _ Nx I) as (t & Im & Sk). exact (Idle k Nk (m, t) Im e Sk).
+  Qed.
+
+Lemma existsb_map_ {A B} (f : A -> B) (g : B -> bool) l : existsb g (map f l) = existsb (fun x => g (f x)) l.
+Proof. induction l as [|x l IH]; cbn; [reflexivity|]. rewrite IH. reflexivity. Qed.
+Lemma forallb_map_ {A B} (f : A -> B) (g : B -> bool) l : forallb g (map f l) = forallb (fun x => g (f x)) l.
+Proof. induction l as [|x l IH]; cbn; [reflexivity|]. rewrite IH. reflexivity. Qed.
+
+(** * Part 4: the property's clauses *)
+Section Clauses.
+  Variable pu : puniverse.
+  Variable s : gstate.
+  Variable plugs : list pkgid.
+  Variable socket : pkgid.
+  Variables imps sx : list item.
+  Variable pls : list (list item).
+  Hypothesis Hcase : plug_case pu s plugs socket imps sx pls.
+  Hypothesis H1 : socket_tracks_distinct pu imps.
+  Hypothesis H2 : plug_tracks_distinct pu pls.
+
+  Let sup := suppliers (pu_name_text pu) (u_sub pu) pls.
+  Let res := plug pu s plugs socket.
+
+  Lemma master : plug_result pu plugs socket imps sx pls res.
+  Proof. destruct Hcase as (B & R & W). apply plug_master; assumption. Qed.
+
+  Lemma two_not_le1 (i : item) : 2 <= length (sup i) -> length (sup i) <= 1 -> False.
+  Proof. lia. Qed.
+
+  Lemma supplies_spec : snd res = POk -> forall m t, In (m, t) imps ->
+    match sup (m, t) with
+    | [] => stays_import pu (fst res) 0 m t
+    | [(k, e)] => exists p, nth_error plugs k = Some p /\ supplied_by pu (fst res) 0 m p e
+    | _ => False
+    end.
+  Proof.
+    pose proof master as M. unfold plug_result in M. fold res in M. destruct res as [s' out]. cbn [fst snd].
+    intros ->. destruct M as [(E & _)|[(E & _)|(_ & _ & _ & T & _)]]; try discriminate. exact T.
+  Qed.
+
+  Lemma reexports_socket : snd res = POk -> forall x k, In (x, k) sx -> reexported pu (fst res) 0 x.
+  Proof.
+    pose proof master as M. unfold plug_result in M. destruct res as [s' out]. cbn [fst snd].
+    intros ->. destruct M as [(E & _)|[(E & _)|(_ & _ & _ & _ & T & _)]]; try discriminate. exact T.
+  Qed.
+
+  Lemma idle_not_instantiated : snd res = POk -> forall p, p <> socket ->
+    (forall k, nth_error plugs k = Some p -> forall i, In i imps -> forall e, ~ In (k, e) (sup i)) ->
+    not_instantiated (fst res) p.
+  Proof.
+    pose proof master as M. unfold plug_result in M. destruct res as [s' out]. cbn [fst snd].
+    intros ->. destruct M as [(E & _)|[(E & _)|(_ & _ & _ & _ & _ & T)]]; try discriminate. exact T.
+  Qed.
+
+  Lemma no_plug_iff_ : snd res = PNoPlugHappened <-> forall i, In i imps -> sup i = [].
+  Proof.
+    pose proof master as M. unfold plug_result in M. destruct res as [s' out]. cbn [fst snd].
+    destruct M as [(E & i & Ii & L)|[(E & A)|(E & _ & (i & Ii & NE) & _)]]; subst out.
+    - split; [discriminate|]. intros A. exfalso. fold sup in L. rewrite (A i Ii) in L. cbn in L. lia.
+    - split; auto.
+    - split; [discriminate|]. intros A. destruct (NE (A i Ii)).
+  Qed.
+
+  Lemma ambiguous_fail : (exists i, In i imps /\ 2 <= length (sup i)) -> snd res = PGraphError ArgumentAlreadyPassed.
+  Proof.
+    pose proof master as M. unfold plug_result in M. destruct res as [s' out]. cbn [fst snd].
+    intros (i & Ii & L). destruct M as [(E & _)|[(E & A)|(E & LE & _)]]; [exact E| |].
+    - exfalso. fold sup in A. rewrite (A i Ii) in L. cbn in L. lia.
+    - exfalso. apply (two_not_le1 i L). apply LE. exact Ii.
+  Qed.
+
+  (** the converse: the only failure is that one, and it means an ambiguity; and there is no panic *)
+  Lemma fails_only_if_ambiguous : forall e, snd res = PGraphError e ->
+    e = ArgumentAlreadyPassed /\ exists i, In i imps /\ 2 <= length (sup i).
+  Proof.
+    pose proof master as M. unfold plug_result in M. destruct res as [s' out]. cbn [fst snd].
+    intros e ->. destruct M as [(E & A)|[(E & _)|(E & _)]]; try discriminate. injection E as ->. auto.
+  Qed.
+
+  Lemma never_panics : forall p, snd res <> PPanic p.
+  Proof.
+    pose proof master as M. unfold plug_result in M. destruct res as [s' out]. cbn [fst snd].
+    intros p ->. destruct M as [(E & _)|[(E & _)|(E & _)]]; discriminate.
+  Qed.
+
+  (** the verdict of the executable specification *)
+  Lemma agrees_with_spec_verdict :
+    match spec_plug (pu_name_text pu) (u_sub pu) imps pls with
+    | VFail => snd res = PGraphError ArgumentAlreadyPassed
+    | VNoPlug => snd res = PNoPlugHappened
+    | VOk _ => snd res = POk
+    end.
+  Proof.
+    unfold spec_plug. rewrite existsb_map_, forallb_map_. cbn [snd fst]. fold sup.
+    match goal with |- context [existsb ?f imps] => destruct (existsb f imps) eqn:E end.
+    - apply ambiguous_fail. apply existsb_exists in E. destruct E as (i & Ii & L). apply Nat.leb_le in L. eauto.
+    - match goal with |- context [forallb ?f imps] => destruct (forallb f imps) eqn:F end.
+      + apply no_plug_iff_. intros i Ii. rewrite forallb_forall in F. specialize (F i Ii). destruct (sup i); [reflexivity|discriminate].
+      + pose proof master as M. unfold plug_result in M. destruct res as [s' out]. cbn [fst snd].
+        destruct M as [(_ & i & Ii & L)|[(_ & A)|(Eo & _)]]; [| |exact Eo].
+        * exfalso. match type of E with ?x = false => assert (x = true); [|congruence] end.
+          apply existsb_exists. exists i. split; [exact Ii|apply Nat.leb_le; exact L].
+        * exfalso. match type of F with ?x = false => assert (x = true); [|congruence] end.
+          apply forallb_forall. intros i Ii. fold sup in A. rewrite (A i Ii). reflexivity.
+  Qed.
+End Clauses.
